@@ -113,3 +113,4 @@ PROPERTY = {
 # span indices are creation indices: a shrunk history must keep every `ns` op
 for _s in PROPERTY['streams']:
     _s.shrink_keep = lambda op: op.startswith('ns ')
+    if _s.bin == 'h_registry': _s.model_case = reggen.model_case
